@@ -9,7 +9,7 @@ from __future__ import annotations
 import itertools
 
 from sa.harness import H, show
-from sa.ae import Seq, DictV, Obj, Unknown, Tok
+from sa.ae import Seq, DictV, Obj, Unknown, Tok, IterV
 from rules import common
 
 LEVEL = "exploration"
@@ -63,7 +63,8 @@ def run(ctx):
                     continue
                 try:
                     V, P, W = world(h, verts)
-                    adj = DictV([[V[k], Seq([V[x] for x in row], "list")] for k, row in zip(keys, rows)])
+                    one_shot = lt == "DirectedEdge" and (len(rows[0]) + len(keys)) % 2 == 0     # rows given as one-shot iterators (the docstring allows any iterable)
+                    adj = DictV([[V[k], (IterV([V[x] for x in row]) if one_shot else Seq([V[x] for x in row], "list"))] for k, row in zip(keys, rows)])
                     pre = snapshot(V)
                     out = h.call(fdict, adj, h.cls(lt)) if lt != "UnDirectedEdge" else h.call(fdict, adj)   # UnDirectedEdge is the documented default
                 except Unknown as u:
@@ -84,7 +85,7 @@ def run(ctx):
                 why = compare(out, V, want, want_members, h) or readback(h, V, want, lt)
                 res.ob(why is None, sig=("dict", keys, rows, lt), sample={"builder": "load_adj_dict", "adjacency": {k: list(r) for k, r in zip(keys, rows)}, "linktype": lt})
                 if why:
-                    feats = f"empty-row={any(len(r) == 0 for r in rows)},self-entry={any(k in r for k, r in zip(keys, rows))},repeated-entry={any(len(set(r)) < len(r) for r in rows)},value-not-a-key={any('e' in r for r in rows)}"
+                    feats = ("rows-are-iterators," if one_shot else "") + f"empty-row={any(len(r) == 0 for r in rows)},self-entry={any(k in r for k, r in zip(keys, rows))},repeated-entry={any(len(set(r)) < len(r) for r in rows)},value-not-a-key={any('e' in r for r in rows)}"
                     res.violation("BUILD-DICT", DICT_FN, feats, f"load_adj_dict({{{', '.join(k + ': ' + str(list(r)) for k, r in zip(keys, rows))}}}, {lt}): {why}", replay=replay_dict(keys, rows, lt))
     res.rule("BUILD-DICT", n)
     # ---------------- load_adj_matrix
